@@ -202,9 +202,9 @@ class HypersphereART(BaseART):
         i_radius = cache["i_radius"]
 
         radius_new = radius + (params["beta"] / 2) * (max_radius - radius)
-        centroid_new = centroid + (params["beta"] / 2) * (i - centroid) * (
-            1 - (min(radius, i_radius) / i_radius)
-        )
+        # a sample sitting exactly on the centre leaves the centre where it is
+        shrink = 1 - (min(radius, i_radius) / i_radius) if i_radius > 0 else 0.0
+        centroid_new = centroid + (params["beta"] / 2) * (i - centroid) * shrink
 
         return np.concatenate([centroid_new, [radius_new]])
 
